@@ -52,6 +52,42 @@ def is_paged_model(ctx, m):
     return bool(pt and nt and ps and rep)
 
 
+def second_client_check(ctx, rig, f, svc, classes):
+    """Two clients of one service, each on its own channel to its own server: a call made through the second client
+    arrives at the second server only (no state shared between client / transport instances)."""
+    m = next((x for x in svc["methods"] if not x.get("cs") and not x.get("ss")), None)
+    if m is None:
+        return
+    path = f"/{f['package']}.{svc['name']}/{m['name']}"
+    out_cls = classes(ctx.descriptor(m["output"]))
+    reply = out_cls().SerializeToString()
+    for kind in ("sync", "async"):
+        def call(client):
+            meth = getattr(client, client_method_name(m["name"]))
+            req = to_python(ctx, m["input"], classes(ctx.descriptor(m["input"]))())
+            if kind == "sync":
+                return meth(request=req)
+
+            async def go():
+                return await meth(request=req)
+            return rig.run(go())
+        a, b = rig.grpc, rig.second_server()
+        a.respond = b.respond = lambda rec: reply
+        try:
+            call(rig.client(f, svc, kind))          # the first client is in use before the second one exists
+            second = rig.fresh_client_b(f, svc, kind)
+            a.take(), b.take()
+            call(second)
+        except Exception as e:
+            ctx.violation("second-client-raised", f"{path} ({kind}): {type(e).__name__}: {str(e)[:200]}")
+            continue
+        ca, cb = a.take(), b.take()
+        ctx.count("second_client_calls")
+        if [c["method"] for c in cb] != [path] or ca:
+            ctx.violation("second-client-channel", f"{path} ({kind}): a call through a second client on its own channel reached its server "
+                          f"{len(cb)} time(s) and the FIRST client's server {len(ca)} time(s)")
+
+
 def exercise(ctx):
     from .c01 import import_all
     import_all(ctx)
@@ -182,4 +218,5 @@ def exercise(ctx):
 
             forall(ctx, scenario(), one, n, label=m["name"], shrink=False)
             ctx.count("methods_exercised")
+        second_client_check(ctx, rig, f, svc, classes)
     ctx.sample({"services": [s["name"] for _, s in ctx.services()], "inner_evaluations": ctx.counters.get("inner_evaluations", 0)})
